@@ -20,11 +20,11 @@ CHECKS = {
               "markers (step_fidelity), lifted to whole programs (run_fidelity) and to init;ops;flush;free: the file "
               "starts with the header and its user events are exactly the emitted ones, once, in order "
               "(stream_fidelity); evlen is exact and < capacity in every reachable state (buffer_in_bounds). "
-              "Props/C01Write.lean (14) removes the assumption that write() completes for the loop of write_evbuf, the OS being an "
+              "Props/C01Write.lean (16) removes the assumption that write() completes for the loop of write_evbuf, the OS being an "
               "arbitrary list of answers (error or any count): when the loop ends the file grew by exactly the buffer "
               "(write_evbuf_exact), at every other moment by a prefix of it (write_evbuf_prefix), it ends within max(1,size) "
               "calls when every answer transfers a byte (write_evbuf_terminates), and its call log is what replay accepts "
-              "(replay_accepts, replay_accepts_abort). "
+              "(replay_accepts, replay_accepts_abort); lifted to the whole sequence of flushes (writeAll_exact, writeAll_terminates: the file is the concatenation of the flushed buffers, which is the disk of the buffer model). "
               "Tie: the real ovni.c+common.c+parson.c compiled with ASan/UBSan into a harness with an interposed clock; "
               "random programs and a systematic sweep of the fill level around the boundary; the stream file must equal "
               "the bytes predicted by the Lean model (its own encoder) and satisfy an independent Python decoder/oracle; the same "
